@@ -6,6 +6,7 @@ CONSTANTS
   MaxUid = 0
   MaxCode = 0
   NFlagSets = 1
+  SyncLit = FALSE
   Kinds = {"NOOP", "LIST"}
   Greetings = {"PREAUTH"}
   SimDepth = 0
